@@ -30,6 +30,7 @@ static std::vector<vc::Point> execute(const Exec &e, const vo::Fail &fail, uint6
     vc::Oracle o;
     o.dev = e.dev;
     o.horizon = 400000;
+    o.salt = vpl::streamSalt(e.cfg.planner);
     ob::PlannerStatus st;
     bool horizon = false;
     {
@@ -97,7 +98,7 @@ static std::vector<Cfg> configs(const std::string &planner, bool thorough)
         c.budget = budget;
         v.push_back(c);
     };
-    int B = 60;
+    int B = planner == "XXL" ? 800 : 60;  // XXL evaluates the condition inside its layered sub-searches: 60 evaluations never leave the first region
     if ((flags & vpl::MULTILEVEL) && !thorough)
     {
         // multilevel planners are an order of magnitude slower per execution (roadmap + path-restriction machinery): the quick tier
